@@ -110,6 +110,13 @@ static int roundtrip(econf_file *kf, char d, char c, const char *sig)
   a.n = b.n = 0;
   if (w_take(kf, &a, &err) != 0) { mc_fail(sig, "cannot list the object: %s; %s", err.s, sig); sb_free(&err); return 1; }
   for (int i = 0; i < a.n; i++) if (!unambiguous(kf, &a.e[i], d, c)) { w_free(&a); sb_free(&err); return 0; }
+  /* a key defined twice is listed twice but both listings show the first definition: the later definitions are written as
+   * well, so their values decide about the textual form, too (taken from the object itself; this only widens what is skipped) */
+  for (size_t i = 0; i < kf->length; i++) {
+    const struct file_entry *fe = &kf->file_entry[i];
+    w_ent t = { (fe->group && strcmp(fe->group, "_none_")) ? fe->group : NULL   /* "_none_" = the library's group-less marker */, fe->key, fe->value, NULL, NULL, 1 };
+    if (t.k && !unambiguous(kf, &t, d, c)) { w_free(&a); sb_free(&err); return 0; }
+  }
   /* comments that are not themselves representable make the file ambiguous too */
   for (size_t i = 0; i < kf->length; i++) if (!comment_ok(kf->file_entry[i].comment_before_key, c, 0) || !comment_ok(kf->file_entry[i].comment_after_value, c, kf->file_entry[i].value && !strchr(kf->file_entry[i].value, '\n'))) { w_free(&a); sb_free(&err); return 0; }
   /* the statement speaks about comments of single-line entries only: the writer puts the trailing comments of a multi-line entry
